@@ -386,6 +386,9 @@ func checkCase(k kase, ops map[string]failOp) (msg string, src string) {
 		}
 		return checkSeq(strings.TrimPrefix(k.Op, "seq:"), order)
 	}
+	if strings.HasPrefix(k.Op, "probe:") {
+		return checkProbes(strings.TrimPrefix(k.Op, "probe:"))
+	}
 	if strings.HasPrefix(k.Op, "load:") {
 		return checkLoad(strings.TrimPrefix(k.Op, "load:"))
 	}
@@ -612,6 +615,11 @@ func enumerate(thorough bool, yield func(level string, k kase) bool) {
 			return true
 		}
 		if !rec(nil) {
+			return
+		}
+	}
+	for _, v := range probeVariants {
+		if !yield("L7:repeated and recursive position queries on one function", kase{Op: "probe:" + v, Layout: layout{Lines: 1}}) {
 			return
 		}
 	}
